@@ -20,6 +20,8 @@ from . import common
 from .common import hexs, unhex
 from . import machine_corr as MC
 
+import threading
+RETRY_LOCK = threading.Lock()
 TABLES = os.path.join(common.LEAN_DIR, "GardenVerif", "Generated", "Tables.lean")
 
 
@@ -216,6 +218,10 @@ def run_reftest(ctx, reqs, ints=(), timeout=30):
     if ints:
         env["GARDEN_VERIF_INTERRUPT_AT"] = ",".join(str(t) for t in ints)
     rc, so, se = common.run_cmd([common.GARDEN, "reftest-json-session", path], timeout=timeout, env=env, mem_gb=3)
+    if rc == -9999:
+        # a loaded machine can make a debug-build session take long: once more, alone, generously
+        with RETRY_LOCK:
+            rc, so, se = common.run_cmd([common.GARDEN, "reftest-json-session", path], timeout=300, env=env, mem_gb=3)
     try:
         os.remove(path)
     except OSError:
@@ -225,7 +231,7 @@ def run_reftest(ctx, reqs, ints=(), timeout=30):
     panic = None
     if m:
         panic = dict(file=m.group(1), line=int(m.group(2)), msg=m.group(3).strip())
-    return dict(rc=rc, objs=objs, raw=raw, panic=panic, stderr=(se or "")[-600:])
+    return dict(rc=rc, objs=objs, raw=raw, panic=panic, stderr=(se or "")[-600:], timeout=(rc == -9999))
 
 
 def kind_of(o):
@@ -315,6 +321,9 @@ def canon_real(req, o, printed, cmds):
                 s = m.group(1)
             elif re.match(r"^(Loaded |Ran \d)", s):
                 s = None
+        if s is not None:
+            # M4 displays a function value by name only
+            s = re.sub(r"<fun (\w+) [^>]*>", r"<fun \1>", s)
         return "evalok id=%s value=%s frame=%s %s" % (ids, "-" if s is None else hexs(s), fr, pr)
     if kk == "run_command":
         msg = ANSI.sub("", v["message"])
@@ -417,7 +426,7 @@ def parse_model(resp):
 
 # ------------------------------------------------------------------ framed `garden json`
 
-def run_framed(reqs, ints=(), per_request_timeout=20, probe=True):
+def run_framed(reqs, ints=(), per_request_timeout=90, probe=True):
     """Drive the real `garden json` process: one framed request at a time, wait for its response.
     Returns dict(responses=[(obj, printed)] per request or None, alive, probe_ok, ready, stderr)."""
     env = dict(os.environ, RUST_BACKTRACE="0", NO_COLOR="1")
@@ -453,7 +462,7 @@ def run_framed(reqs, ints=(), per_request_timeout=20, probe=True):
 
     out = dict(responses=[], alive=False, probe_ok=None, ready=False, extra=0)
     try:
-        first = read_obj(20)
+        first = read_obj(90)
         out["ready"] = bool(first) and kind_of(first)[0] == "ready"
 
         def send(text):
